@@ -230,13 +230,28 @@ def _server():
 
 
 def restart_query(req):
-    p = _server()
-    p.stdin.write(json.dumps(req) + "\n")
-    p.stdin.flush()
-    line = p.stdout.readline()
-    if not line:
-        raise RuntimeError("restart server died")
-    return json.loads(line)
+    """One request to the fresh-interpreter server.  Talking to it is harness work, not a
+    library call: the per-run wall guard (meant for hangs inside the library) is suspended and
+    a separate, generous limit applies, so a slow start of the second interpreter on a loaded
+    machine is never mistaken for a hang."""
+    import select
+    import signal
+
+    old = signal.setitimer(signal.ITIMER_REAL, 0)
+    try:
+        p = _server()
+        p.stdin.write(json.dumps(req) + "\n")
+        p.stdin.flush()
+        ready, _, _ = select.select([p.stdout], [], [], 900.0)
+        if not ready:
+            raise RuntimeError("restart server did not answer within 900 s")
+        line = p.stdout.readline()
+        if not line:
+            raise RuntimeError("restart server died")
+        return json.loads(line)
+    finally:
+        if old[0] > 0:
+            signal.setitimer(signal.ITIMER_REAL, max(old[0], 5.0))
 
 
 def _close_server():
